@@ -1,0 +1,28 @@
+//go:build verif
+
+package tenant
+
+import (
+	"context"
+
+	"github.com/sourcegraph/zoekt/internal/tenant/internal/enforcement"
+	"github.com/sourcegraph/zoekt/internal/tenant/internal/tenanttype"
+)
+
+// VerifSetEnforcementMode sets the tenant enforcement mode ("strict", "logging", "") and returns the previous
+// one. Verification hook (the mode lives in an internal package and tenanttest.MockEnforce needs a *testing.T);
+// not part of the normal build.
+func VerifSetEnforcementMode(mode string) (old string) {
+	old = enforcement.EnforcementMode.Load()
+	enforcement.EnforcementMode.Store(mode)
+	return old
+}
+
+// VerifWithTenant returns ctx carrying the tenant with the given id (ids < 1 are rejected, as in production).
+func VerifWithTenant(ctx context.Context, id int) (context.Context, error) {
+	t, err := tenanttype.FromID(id)
+	if err != nil {
+		return nil, err
+	}
+	return tenanttype.WithTenant(ctx, t), nil
+}
